@@ -12,13 +12,15 @@ type hL0Spec struct {
 
 // hL0Files draws n L0 files in seqnum order (file i carries seqnum i+1) with
 // symbolic 1-byte bounds.
-func hL0Files(n int) ([]*TableMetadata, []hL0Spec) {
+func hL0Files(n int) ([]*TableMetadata, []hL0Spec) { return hL0FilesX(n, true) }
+
+func hL0FilesX(n int, exclusiveEnds bool) ([]*TableMetadata, []hL0Spec) {
 	var files []*TableMetadata
 	var specs []hL0Spec
 	for i := 0; i < n; i++ {
 		var s hL0Spec
 		s.lo, s.hi = sym.U8("smallest"), sym.U8("largest")
-		s.exclusive = sym.Bool("largest-exclusive")
+		s.exclusive = exclusiveEnds && sym.Bool("largest-exclusive")
 		sym.Assume(sym.Or(s.lo < s.hi, sym.And(s.lo == s.hi, !s.exclusive)))
 		m := &TableMetadata{TableNum: base.TableNum(i + 1), Size: 100}
 		m.SeqNums.Low, m.SeqNums.High = base.SeqNum(i+1), base.SeqNum(i+1)
@@ -94,15 +96,23 @@ func VerifHarness_C16_Sublevels() {
 	}
 	hCheckSublevels(all, files, specs, "rebuilt")
 
-	lmPrefix := MakeLevelMetadata(cmp, 0, files[:n-1])
+	// the newest one or two files are added in one incremental batch
+	k := 1
+	if n >= 3 {
+		k = 1 + sym.Choose("added-in-one-batch", 2)
+	}
+	lmPrefix := MakeLevelMetadata(cmp, 0, files[:n-k])
 	prefix, err := newL0Sublevels(&lmPrefix, cmp, base.DefaultFormatter, 1<<20)
 	sym.Assert(err == nil, "prefix-sublevels-built")
 	if err != nil {
 		return
 	}
-	added := map[base.TableNum]*TableMetadata{files[n-1].TableNum: files[n-1]}
+	added := map[base.TableNum]*TableMetadata{}
+	for _, f := range files[n-k:] {
+		added[f.TableNum] = f
+	}
 	order, ok := prefix.canUseAddL0Files(added, &lmAll)
-	sym.Assert(ok && len(order) == 1, "incremental-add-allowed-for-the-newest-file")
+	sym.Assert(ok && len(order) == k, "incremental-add-allowed-for-the-newest-files")
 	if !ok {
 		return
 	}
@@ -112,4 +122,91 @@ func VerifHarness_C16_Sublevels() {
 		sym.Assert(inc.state(f).subLevel == all.state(f).subLevel, "incremental-equals-rebuild")
 	}
 	sym.Reach("sublevels")
+}
+
+type hNopLogger struct{ errs int }
+
+func (l *hNopLogger) Infof(format string, args ...interface{})  {}
+func (l *hNopLogger) Errorf(format string, args ...interface{}) { l.errs++ }
+func (l *hNopLogger) Fatalf(format string, args ...interface{}) { l.errs++ }
+
+// VerifHarness_C16_Picks: every compaction the L0 pickers choose is closed. A
+// base (L0 -> Lbase) pick contains every older file that overlaps one of its
+// files; an intra-L0 pick never leaves out a file that overlaps one of its
+// files and lies, in age, between members of the pick; no pick contains a file
+// that is already compacting; and the repo's own checkCompaction accepts it.
+func VerifHarness_C16_Picks() {
+	n := 2 + sym.Choose("files", 2)
+	files, specs := hL0FilesX(n, sym.Thorough())
+	cmp := base.DefaultComparer.Compare
+	// compacting markings: none; the newest file in an intra-L0 compaction (as when another
+	// interval's intra-L0 pick pulled in a wide file); the oldest file in a base compaction;
+	// thorough: any one file, either way
+	switch sym.Choose("compacting", 3) {
+	case 1:
+		files[n-1].CompactionState = CompactionStateCompacting
+		files[n-1].IsIntraL0Compacting = true
+	case 2:
+		files[0].CompactionState = CompactionStateCompacting
+	}
+	if sym.Thorough() {
+		if k := sym.Choose("also-compacting", n+1); k < n {
+			files[k].CompactionState = CompactionStateCompacting
+			files[k].IsIntraL0Compacting = sym.Bool("intra-l0-compacting")
+		}
+	}
+	lm := MakeLevelMetadata(cmp, 0, files)
+	s, err := newL0Sublevels(&lm, cmp, base.DefaultFormatter, 1<<20)
+	sym.Assert(err == nil, "sublevels-built")
+	if err != nil {
+		return
+	}
+	s.InitCompactingFileInfo(nil)
+	logger := &hNopLogger{}
+	var c *L0CompactionFiles
+	intra := sym.Bool("intra-l0")
+	if intra {
+		c = s.PickIntraL0Compaction(base.SeqNum(n+1), 2, nil)
+	} else {
+		c = s.PickBaseCompaction(logger, 1, LevelSlice{}, 6, nil)
+	}
+	sym.Assert(logger.errs == 0, "picker-logged-no-internal-error")
+	if c == nil {
+		sym.Reach("no-pick")
+		return
+	}
+	sym.Assert(len(c.Files) > 0, "pick-is-not-empty")
+	sym.Assert(s.checkCompaction(c) == nil, "repo-checkCompaction-accepts-the-pick")
+	in := make([]bool, n)
+	for _, f := range c.Files {
+		i := int(f.TableNum) - 1
+		sym.Assert(!in[i], "no-file-twice")
+		in[i] = true
+		sym.Assert(!f.IsCompacting(), "pick-contains-no-compacting-file")
+	}
+	newest := 0
+	for i := range in {
+		if in[i] {
+			newest = i
+		}
+	}
+	for g := 0; g < n; g++ {
+		if in[g] {
+			continue
+		}
+		for f := 0; f < n; f++ {
+			if !in[f] {
+				continue
+			}
+			ov := hOverlap(specs[f], specs[g])
+			if !intra {
+				// base pick: an overlapping file left out must be newer than the member it overlaps
+				sym.Assert(sym.Implies(ov, g > f), "base-pick-takes-every-older-overlapping-file")
+			} else if g > f {
+				// intra-L0 pick: a left-out file newer than an overlapping member is newer than the whole pick
+				sym.Assert(sym.Implies(ov, g > newest), "intra-l0-pick-has-no-hole")
+			}
+		}
+	}
+	sym.Reach("pick")
 }
